@@ -205,10 +205,21 @@ def main():
     if args and args[0] == "--jobs":
         jobs = int(args[1])
         args = args[2:]
-    quals = args or ANCHORS
     from sa import REPO_ROOT
 
-    muts = enumerate_mutants(REPO_ROOT, quals)
+    if args and args[0] == "--recheck":
+        # re-run only the mutants that survived earlier sweeps (not reported, smoke passed)
+        seen, muts = set(), []
+        for fn in args[1:]:
+            for l in open(fn):
+                r = json.loads(l)
+                k = (r["qual"], r["op"], r["idx"])
+                if r["status"] != "reported" and r.get("smoke") == "pass" and k not in seen:
+                    seen.add(k)
+                    muts.append({x: r[x] for x in ("qual", "rel", "op", "line", "idx", "text")})
+    else:
+        quals = args or ANCHORS
+        muts = enumerate_mutants(REPO_ROOT, quals)
     print(len(muts), "mutants", file=sys.stderr)
     with ProcessPoolExecutor(max_workers=jobs) as ex:
         res = list(ex.map(run_mutant, muts, chunksize=4))
